@@ -2,7 +2,7 @@
    Only statements, closed by [exact], and Print Assumptions. *)
 From Coq Require Import List Arith ZArith Bool.
 Import ListNotations.
-Require Import MD.Cursor.Model MD.Cursor.Proofs MD.Cursor.Extended.
+Require Import MD.Cursor.Model MD.Cursor.Proofs MD.Cursor.Extended MD.Cursor.ChunkModel MD.Cursor.ChunkProofs.
 Require MD.Load.Model MD.Load.Reflect MD.Load.CursorLink.
 
 (* For every file and every sequence of in-range operations the reader produces exactly the
@@ -84,6 +84,55 @@ Theorem netcdf_current_characterised : forall f ops r,
   run nc_cur_step f (r, r) ops = off_run nc_upd f (Nat.min r (length f), r - Nat.min r (length f)) ops.
 Proof. exact nc_cur_characterised. Qed.
 Print Assumptions netcdf_current_characterised.
+
+(* ================================================================== the read-ahead loops of xtc.pyx / trr.pyx read()
+   read() without n_frames loops over _read(chunk), chunk = max(|int((approx_n_frames - frame_counter) * multiplier)|,
+   min_chunk_size): a function [ch] of the reported counter, at least 1 (chunk_ok).  The theorems hold for EVERY such
+   function, so for every min_chunk_size / chunk_size_multiplier / file size. *)
+
+(* xtc: the loop code is the one-shot reader of Model.xdr_step on every state and operation ... *)
+Theorem xtc_read_ahead_loop_is_one_read : forall ch, chunk_ok ch ->
+  forall f s o, xtc_ch_step ch f s o = xdr_step f s o.
+Proof. exact xtc_ch_step_is_xdr_step. Qed.
+Print Assumptions xtc_read_ahead_loop_is_one_read.
+
+(* ... hence refines the abstract cursor on every ext-range history *)
+Theorem cursor_refines_ext_xtc_any_chunk : forall ch, chunk_ok ch -> forall f ops,
+  all_ext_range (length f) 0 ops = true -> run (xtc_ch_step ch) f (0, 0) ops = spec_run f 0 ops.
+Proof. exact xtc_chunked_refines_cursor. Qed.
+Print Assumptions cursor_refines_ext_xtc_any_chunk.
+
+(* trr: Model.trr_cur_step is the loop with the default constant chunk 100 *)
+Theorem trr_model_is_the_loop_with_default_chunk : forall f s o,
+  trr_ch_step (fun _ => trr_chunk) f s o = trr_cur_step f s o.
+Proof. exact trr_default_chunk_is_model. Qed.
+Print Assumptions trr_model_is_the_loop_with_default_chunk.
+
+(* trr as found, characterised for EVERY file (no bound on its length) and every chunk function: the offset cursor
+   trr_upd_ch; read() adds trr_tail to the reported position *)
+Theorem trr_current_characterised_any_file_any_chunk : forall ch f, chunk_ok ch -> forall ops p e, p <= length f ->
+  run (trr_ch_step ch) f (p, p + e) ops = off_run (trr_upd_ch ch) f (p, e) ops.
+Proof. exact trr_chunked_characterised. Qed.
+Print Assumptions trr_current_characterised_any_file_any_chunk.
+
+(* with a constant chunk c: read() leaves tell() at len + 1 when c divides the number of remaining frames, at len + 2
+   otherwise (so a 100-frame TRR file read with the defaults reports 101, a 10-frame one 12) *)
+Theorem trr_read_to_end_excess_constant_chunk : forall c rem r, 1 <= c ->
+  trr_tail (fun _ => c) rem r = if rem mod c =? 0 then 1 else 2.
+Proof. exact trr_tail_constant_chunk. Qed.
+Print Assumptions trr_read_to_end_excess_constant_chunk.
+
+Example read_ahead_witnesses :
+  run (trr_ch_step (const_chunk 3)) (seq 0 6) (0, 0) [ReadAll; Tell] = [Frames (seq 0 6); Pos 7] /\
+  run (trr_ch_step (const_chunk 4)) (seq 0 6) (0, 0) [ReadAll; Tell] = [Frames (seq 0 6); Pos 8] /\
+  run (xtc_ch_step (const_chunk 4)) (seq 0 6) (0, 0) [ReadAll; Tell] = [Frames (seq 0 6); Pos 6].
+Proof. exact trr_chunk_witnesses. Qed.
+Print Assumptions read_ahead_witnesses.
+
+(* non-vacuity of chunk_ok: every constant chunk the runs use *)
+Example constant_chunks_are_chunk_functions : forall c, chunk_ok (const_chunk c).
+Proof. exact const_chunk_ok. Qed.
+Print Assumptions constant_chunks_are_chunk_functions.
 
 (* ================================================================== per-run tie by translation
    a reader description extracted from the Python source (coq/Gen/LoadReaders.v) that is assigned one of the conforming
